@@ -177,3 +177,16 @@ func TestC06BinarySetEqualityIgnoresOrder(t *testing.T) {
 		}
 	}
 }
+
+// C06: begins_with and contains on an attribute the item does not have are false, not an error
+// (a filter over items that only sometimes have the attribute; a condition on a key that holds nothing).
+func TestC06FunctionsOnMissingAttribute(t *testing.T) {
+	item := map[string]*types.Item{"s": s("abc")}
+	for e, want := range map[string]bool{"begins_with(nosuch, :v)": false, "contains(nosuch, :v)": false, "NOT begins_with(nosuch, :v)": true,
+		"begins_with(s, :v) OR contains(nosuch, :v)": true, "m.k.x = :v OR begins_with(m.k, :v)": false, "begins_with(s, :v)": true} {
+		r, err, c := match(e, item, map[string]*types.Item{":v": s("a")}, nil)
+		if err != nil || c != nil || r != want {
+			t.Errorf("%q: res=%v err=%v crash=%v, want %v", e, r, err, c, want)
+		}
+	}
+}
